@@ -142,14 +142,27 @@ impl Stats {
         }
     }
     pub fn violate(&mut self, class: impl Into<String>, detail: impl Into<String>, case: Json) {
-        if self.violations.len() < 64 {
-            self.violations.push(Violation {
-                class: class.into(),
-                detail: detail.into(),
-                case,
-            });
-        } else {
-            self.count("violations_not_recorded", 1);
+        // keep the smallest few witnesses per class (deterministic whatever the thread timing),
+        // and every class
+        let class = class.into();
+        *self.counters.entry("violations_total".to_string()).or_insert(0) += 1;
+        let same: Vec<usize> = self.violations.iter().enumerate().filter(|(_, v)| v.class == class).map(|(i, _)| i).collect();
+        let v = Violation {
+            class,
+            detail: detail.into(),
+            case,
+        };
+        if same.len() < 2 {
+            if self.violations.len() < 4096 {
+                self.violations.push(v);
+            }
+            return;
+        }
+        // replace the largest witness of this class if the new one is smaller
+        let key = |x: &Violation| (x.detail.len(), x.detail.clone());
+        let worst = same.iter().copied().max_by_key(|i| key(&self.violations[*i])).unwrap();
+        if key(&v) < key(&self.violations[worst]) {
+            self.violations[worst] = v;
         }
     }
     pub fn merge(&mut self, o: Stats) {
@@ -169,7 +182,12 @@ impl Stats {
                 self.samples.push(s);
             }
         }
-        self.violations.extend(o.violations);
+        for v in o.violations {
+            let total = self.counters.get("violations_total").copied().unwrap_or(0);
+            self.violate(v.class, v.detail, v.case);
+            // `violate` counted it again; the totals were already merged with the counters above
+            self.counters.insert("violations_total".to_string(), total);
+        }
         self.max_depth = self.max_depth.max(o.max_depth);
         self.states_extra += o.states_extra;
         self.nontrivial_extra += o.nontrivial_extra;
@@ -260,7 +278,9 @@ impl Report {
         let known = load_known(&self.ctx);
         let mut known_hit: BTreeSet<String> = BTreeSet::new();
         let mut real: Vec<Violation> = vec![];
-        for v in std::mem::take(&mut self.stats.violations) {
+        let mut all = std::mem::take(&mut self.stats.violations);
+        all.sort_by(|a, b| (&a.class, a.detail.len(), &a.detail).cmp(&(&b.class, b.detail.len(), &b.detail)));
+        for v in all {
             if let Some(k) = known.iter().find(|k| k.property == self.ctx.id && k.class == v.class) {
                 if known_hit.insert(k.id.clone()) {
                     println!("KNOWN-FINDING: property={} {} [{}] e.g. {}", self.ctx.id, k.what, k.id, v.detail);
